@@ -72,6 +72,18 @@ MUTANTS = [
 """, "")]},
  {"name": "c18_vcfb_includes_endpoint", "property": "C18", "edits": [
    ("src/pyunicorn/core/_ext/src_numerics.c", "if(i == t || i == s){", "if(i == t){")]},
+ {"name": "c09_distance_weights_keyed_by_id", "property": "C09", "edits": [
+   # state kept across objects in one process: only the history replay
+   # reproduces it
+   (CN, "class ClimateNetwork(GeoNetwork):", "_distance_weights = {}\n\n\nclass ClimateNetwork(GeoNetwork):"),
+   (CN, """        weighted_similarity = similarity_measure * \\
+            (0.5 * (np.tanh(a * (self.grid.angular_distance() - d_min)) + 1))
+""", """        key = (id(self.grid), a, d_min)
+        if key not in _distance_weights:
+            _distance_weights[key] = 0.5 * (np.tanh(
+                a * (self.grid.angular_distance() - d_min)) + 1)
+        weighted_similarity = similarity_measure * _distance_weights[key]
+""")]},
  {"name": "c09_ge_threshold", "property": "C09", "edits": [
    (CN, "A[similarity_measure > threshold] = 1", "A[similarity_measure >= threshold] = 1")]},
  {"name": "c09_keep_diagonal", "property": "C09", "edits": [
